@@ -397,6 +397,50 @@ func expected4(c *OptCase, stubType dhcpv4.MessageType, stubHas map[uint8]bool) 
 	return e, nil
 }
 
+// nbpHeaderCarriers checks siaddr / sname / file of a reply the nbp plugin touched: unchanged, or
+// the configured boot server / boot file; the fields are then blanked in both images
+func nbpHeaderCarriers(c *OptCase, before, after []byte) *core.Violation {
+	u, err := url.Parse(c.Args[0])
+	if err != nil {
+		return nil
+	}
+	server, file := u.Host, u.Path
+	switch u.Scheme {
+	case "http", "https", "ftp":
+		server, file = "", c.Args[0]
+	}
+	text := func(b []byte) string {
+		if i := bytes.IndexByte(b, 0); i >= 0 {
+			b = b[:i]
+		}
+		return string(b)
+	}
+	for _, f := range []struct {
+		name     string
+		lo, hi   int
+		want     string
+		alsoHost string
+	}{{"sname", 44, 108, server, u.Hostname()}, {"file", 108, 236, file, ""}} {
+		if !bytes.Equal(before[f.lo:f.hi], after[f.lo:f.hi]) {
+			got := text(after[f.lo:f.hi])
+			if got != f.want && (f.alsoHost == "" || got != f.alsoHost) {
+				return core.Violate("C17/nbp/header-carrier-wrong-value", "args %q: the reply's %s field was set to %q, the configured value is %q", c.Args, f.name, got, f.want)
+			}
+		}
+		for i := f.lo; i < f.hi; i++ {
+			before[i], after[i] = 0, 0
+		}
+	}
+	if !bytes.Equal(before[20:24], after[20:24]) {
+		ip := net.ParseIP(u.Hostname()).To4()
+		if ip == nil || !bytes.Equal(after[20:24], ip) {
+			return core.Violate("C17/nbp/header-carrier-wrong-value", "args %q: the reply's siaddr was set to %v, the configured boot server is %q", c.Args, net.IP(after[20:24]), u.Hostname())
+		}
+		copy(after[20:24], before[20:24])
+	}
+	return nil
+}
+
 func plugOptionCodes4(plugin string) []uint8 {
 	switch plugin {
 	case "netmask":
@@ -522,7 +566,17 @@ func ExecOpt(c OptCase) (res core.Result) {
 		return
 	}
 	after := out.ToBytes()
-	if !bytes.Equal(before[:240], after[:240]) {
+	hb, ha := append([]byte(nil), before[:240]...), append([]byte(nil), after[:240]...)
+	if c.Plugin == "nbp" {
+		// the BOOTP header has carriers of its own for the boot server and file (siaddr, sname, file).
+		// The statement speaks about options; if the plugin fills a carrier as well, it must be with
+		// the configured value, and nothing is demanded beyond that
+		if v := nbpHeaderCarriers(&c, hb, ha); v != nil {
+			res.Viol = v
+			return
+		}
+	}
+	if !bytes.Equal(hb, ha) {
 		res.Viol = core.Violate("C17/"+c.Plugin+"/header-changed", "the plugin changed header fields of the reply")
 		return
 	}
